@@ -883,7 +883,7 @@ class SymBytes(SymSeq):
                 else:
                     eng.unsupported("decode(ascii, errors=%r)" % (errors,))
             return mkseq("str", out)
-        if enc in ("latin-1", "latin1", "iso-8859-1"):
+        if enc in LATIN1_NAMES:
             return mkseq("str", self.items)
         core.cur().unsupported("decode(%s)" % encoding)
 
@@ -892,6 +892,9 @@ class SymBytes(SymSeq):
 
     def __bytes__(self):
         core.cur().unsupported("bytes(SymBytes) reached from unlifted code")
+
+
+LATIN1_NAMES = ("latin-1", "latin1", "iso-8859-1", "iso8859-1", "8859", "l1", "latin", "cp819", "iso-ir-100")
 
 
 class SymStr(SymSeq):
@@ -953,13 +956,22 @@ class SymStr(SymSeq):
                 else:
                     raise UnicodeEncodeError("ascii", "?", i, i + 1, "ordinal not in range(128)")
             return mkseq("bytes", out)
-        if enc in ("latin-1", "latin1", "iso-8859-1"):
+        if enc in LATIN1_NAMES:
             eng = core.cur()
+            out = []
             for i, it in enumerate(self.items):
                 ok = (it < 256) if isinstance(it, int) else eng.branch(it < 256)
-                if not ok:
+                if ok:
+                    out.append(it)
+                elif errors == "surrogateescape" and _t(eng, _rng(it, 0xDC80, 0xDCFF)):
+                    out.append(it - 0xDC00)
+                elif errors == "replace":
+                    out.append(63)
+                elif errors == "ignore":
+                    pass
+                else:
                     raise UnicodeEncodeError("latin-1", "?", i, i + 1, "ordinal not in range(256)")
-            return mkseq("bytes", self.items)
+            return mkseq("bytes", out)
         core.cur().unsupported("encode(%s)" % encoding)
 
 
